@@ -43,13 +43,13 @@ func randCfg(r *hx.Rng, adversarial bool) *c09lib.Cfg {
 	if r.Chance(10) {
 		c.Tokens[0].Rate = rates[r.Intn(4)]
 	}
-	for _, d := range []string{"ubtc", "xeth", "frozen", "ufoo"} {
+	for _, d := range []string{"ubtc", "xeth", "frozen", "ufoo", c09lib.IbcDenom, c09lib.MixDenom} {
 		if r.Chance(70) {
 			c.Tokens = append(c.Tokens, c09lib.Tok{Denom: d, Rate: rates[r.Intn(len(rates))], FeeEnabled: r.Chance(80)})
 		}
 	}
-	c.Black = subset(r, []string{"frozen", "ubtc", "ukex", "xeth", "ufoo"}, 25)
-	c.White = subset(r, []string{"ukex", "ubtc", "xeth", "frozen", "ufoo"}, 60)
+	c.Black = subset(r, []string{"frozen", "ubtc", "ukex", "xeth", "ufoo", c09lib.IbcDenom, c09lib.MixDenom}, 25)
+	c.White = subset(r, []string{"ukex", "ubtc", "xeth", "frozen", "ufoo", c09lib.IbcDenom, c09lib.MixDenom}, 60)
 	c.EnBlack, c.EnWhite = r.Chance(60), r.Chance(25)
 	c.Foreign = r.Chance(75)
 	c.ViaGov = !adversarial && r.Chance(30)
